@@ -3,6 +3,7 @@ package rules
 import (
 	"fmt"
 	"go/ast"
+	"go/constant"
 	"go/token"
 	"go/types"
 	"sort"
@@ -18,6 +19,8 @@ func propC17(c *Ctx) {
 	c.rulePanicCover()
 	c.ruleMethodExhaustive()
 	c.rulePathParamsRequired()
+	c.rulePathParamsComplete()
+	c.ruleComponentsIffTypes()
 	c.ruleResponseKeys()
 	c.ruleExpandedTree()
 	c.ruleEveryInteraction()
@@ -233,6 +236,155 @@ func (c *Ctx) rulePathParamsRequired() {
 		r.Bad("C17-PATH-PARAMS-REQUIRED", "getPathParams", "a path parameter is appended without Required = true (OpenAPI requires it for `in: path`)", bad)
 	default:
 		r.Ok("C17-PATH-PARAMS-REQUIRED", "getPathParams", "Required = true precedes the append in the loop body", c.pos(f.Decl.Pos()))
+	}
+}
+
+// rulePathParamsComplete: the parameters of a path item come from the path schema through two list-building loops
+// (getPathParams over the result of the schema-to-parameters converter, and the converter's own loop over the
+// properties of the schema). A `{parameter}` of the path is declared only if neither loop can skip an element.
+func (c *Ctx) rulePathParamsComplete() {
+	r := c.R
+	r.Rule("C17-PATH-PARAMS-COMPLETE", "in getPathParams and in the converter whose result it ranges over, every loop that builds the returned list appends on every iteration (no continue, no conditional append): no property of the path schema is left without a parameter object", 2)
+	f := c.fn("catalog/ser/openapi", "getPathParams")
+	if f == nil {
+		r.Undecided("C17-PATH-PARAMS-COMPLETE", "anchor", "getPathParams not found", "")
+		return
+	}
+	fns := []*Fn{f}
+	ast.Inspect(f.Decl.Body, func(nd ast.Node) bool {
+		if rs, ok := nd.(*ast.RangeStmt); ok {
+			if call, _ := definingCall(f, rs.X); call != nil {
+				if g := c.fnOf(callee(f.Pkg, call)); g != nil {
+					fns = append(fns, g)
+				}
+			}
+		}
+		return true
+	})
+	n := 0
+	for _, g := range fns {
+		pk := g.Pkg
+		cf := buildCFG(g.Decl.Body)
+		// result variables: identifiers returned
+		returned := map[types.Object]bool{}
+		ast.Inspect(g.Decl.Body, func(nd ast.Node) bool {
+			if ret, ok := nd.(*ast.ReturnStmt); ok {
+				for _, e := range ret.Results {
+					if id := identOf(e); id != nil {
+						returned[pk.TypesInfo.Uses[id]] = true
+					}
+				}
+			}
+			return true
+		})
+		ast.Inspect(g.Decl.Body, func(nd ast.Node) bool {
+			rs, ok := nd.(*ast.RangeStmt)
+			if !ok {
+				return true
+			}
+			isAppend := func(m ast.Node) bool {
+				as, ok := m.(*ast.AssignStmt)
+				if !ok || len(as.Lhs) != 1 || len(as.Rhs) != 1 {
+					return false
+				}
+				call, ok := ast.Unparen(as.Rhs[0]).(*ast.CallExpr)
+				if !ok || exprString(call.Fun) != "append" {
+					return false
+				}
+				id := identOf(as.Lhs[0])
+				return id != nil && returned[objOf(pk, id)]
+			}
+			has := false
+			ast.Inspect(rs.Body, func(m ast.Node) bool {
+				if isAppend(m) {
+					has = true
+				}
+				return !has
+			})
+			if !has {
+				return true
+			}
+			n++
+			key := g.Name() + " | range " + exprString(rs.X)
+			if cf.everyRoundPasses(rs, isAppend) {
+				r.Ok("C17-PATH-PARAMS-COMPLETE", key, "every iteration appends to the returned list", c.pos(rs.Pos()))
+			} else {
+				r.Bad("C17-PATH-PARAMS-COMPLETE", key, "an iteration can end without appending: a property of the path schema gets no parameter object, so a {parameter} of the path is left undeclared", c.pos(rs.Pos()))
+			}
+			return true
+		})
+	}
+	if n < 2 {
+		r.Undecided("C17-PATH-PARAMS-COMPLETE", "loops", fmt.Sprintf("only %d list-building loop(s) recognised between the path schema and the path item", n), "")
+	}
+}
+
+// ruleComponentsIffTypes: "every user type is a component": the components section may be left out only when there is
+// no user type at all.
+func (c *Ctx) ruleComponentsIffTypes() {
+	r := c.R
+	r.Rule("C17-COMPONENTS-IFF-TYPES", "the function that builds the components section returns nil only on a path on which UserTypes.Len() is known to be 0 (in whatever form the test is written; predicate helpers are opened): no other circumstance (kinds of interactions, servers, ...) may drop the user types", 1)
+	f := c.fn("catalog/ser/openapi", "newComponents")
+	if f == nil {
+		r.Undecided("C17-COMPONENTS-IFF-TYPES", "anchor", "newComponents not found", "")
+		return
+	}
+	pk := f.Pkg
+	cf := c.cfgOf(f)
+	n := 0
+	ast.Inspect(f.Decl.Body, func(nd ast.Node) bool {
+		ret, ok := nd.(*ast.ReturnStmt)
+		if !ok || len(ret.Results) != 1 || !isNil(pk, ret.Results[0]) {
+			return true
+		}
+		n++
+		noTypes := func(cond ast.Expr, holds bool) bool {
+			// a comparison of <..>.UserTypes.Len() with a constant that, having this truth value, leaves only 0
+			be, ok := ast.Unparen(cond).(*ast.BinaryExpr)
+			if !ok {
+				return false
+			}
+			var lenCall ast.Expr
+			for _, side := range []ast.Expr{be.X, be.Y} {
+				if call, ok := ast.Unparen(side).(*ast.CallExpr); ok {
+					if sel, ok := ast.Unparen(call.Fun).(*ast.SelectorExpr); ok && sel.Sel.Name == "Len" {
+						if fld := fieldSelNode(pk, sel.X); fld != nil && fld.Name() == "UserTypes" {
+							lenCall = side
+						}
+						// inside a helper of another receiver name the field is still UserTypes
+						if s2, ok := ast.Unparen(sel.X).(*ast.SelectorExpr); ok && s2.Sel.Name == "UserTypes" {
+							lenCall = side
+						}
+					}
+				}
+			}
+			if lenCall == nil {
+				return false
+			}
+			for _, v := range []int64{1, 2, 1 << 20} {
+				env := &constEnv{c: c}
+				vv := v
+				env.leaf = func(g *Fn, e ast.Expr) (constant.Value, bool) {
+					if e == ast.Unparen(lenCall) {
+						return constant.MakeInt64(vv), true
+					}
+					return nil, false
+				}
+				if !env.refutes(f, cond, holds) {
+					return false
+				}
+			}
+			return true
+		}
+		if cf.establishedAt(ret, noTypes, nil) {
+			r.Ok("C17-COMPONENTS-IFF-TYPES", "newComponents | return nil", "reached only when there is no user type", c.pos(ret.Pos()))
+		} else {
+			r.Bad("C17-COMPONENTS-IFF-TYPES", "newComponents | return nil", "the components section is left out on a path on which user types may exist: their $refs dangle and the types are not components", c.pos(ret.Pos()))
+		}
+		return true
+	})
+	if n == 0 {
+		r.Ok("C17-COMPONENTS-IFF-TYPES", "newComponents", "never returns nil: the section is always present", c.pos(f.Decl.Pos()))
 	}
 }
 
